@@ -91,6 +91,8 @@ pub open spec fn wire_all(fs: Seq<FrameS>) -> Seq<u8> decreases fs.len()
 { if fs.len() == 0 { Seq::empty() } else { wire(fs[0]) + wire_all(fs.drop_first()) } }
 pub open spec fn frames_ok(fs: Seq<FrameS>) -> bool { forall|i: int| 0 <= i < fs.len() ==> (#[trigger] fs[i]).data.len() <= 65535 }
 
+#[verifier::spinoff_prover]
+#[verifier::rlimit(80)]
 pub proof fn lemma_parse_wire_all(fs: Seq<FrameS>, r: Seq<u8>)
     requires frames_ok(fs)
     ensures parse(wire_all(fs) + r) == (fs + parse(r).0, parse(r).1)
